@@ -183,7 +183,7 @@ func runC05(tier string, seed uint64, o *Out) error {
 			}
 			o1 := get(s1)
 			for h := 0; h < 2; h++ {
-				_, _ = s1.EmitSync(genRow(r, true).goMap())
+				quietSync(s1, genRow(r, true).goMap())
 			}
 			o2 := get(s1)
 			s2 := streamsql.New(streamsql.WithDiscardLog())
@@ -242,6 +242,7 @@ func runC05(tier string, seed uint64, o *Out) error {
 	// own generator state: the shared splitmix64 streams of neighbouring seeds are shifted copies of
 	// each other and re-synchronise in rejection loops; a far-away state keeps the seeds independent
 	c05NestedShapes(tier, NewRNG(seed*1000003+505), o)
+	c05Concurrent(tier, NewRNG(seed*1000003+515), o)
 	return nil
 }
 
@@ -287,7 +288,7 @@ func c05Nested(tier string, r *RNG, o *Out) {
 		verdict := "same"
 		for i := 0; i < 8; i++ {
 			a := guard(func() string { res, err := s1.EmitSync(mk(i)); return fmt.Sprintf("%v %v", res, err != nil) })
-			_, _ = s1.EmitSync(mk(i + 1))
+			quietSync(s1, mk(i+1))
 			b := guard(func() string { res, err := s1.EmitSync(mk(i)); return fmt.Sprintf("%v %v", res, err != nil) })
 			if a != b {
 				verdict = "history"
